@@ -12,6 +12,7 @@ import (
 	"fmt"
 	"io/ioutil"
 	"os"
+	"runtime"
 	"strings"
 	"time"
 
@@ -32,6 +33,18 @@ type play struct {
 	Seconds   float64
 	Race      string
 	Moods     int
+}
+
+// watchdog ends the process (exit status 7, all goroutine stacks on stderr)
+// when one play or case does not end: a deadlock inside the play cannot be
+// recovered from in-process.  The check reports the play left in current.json.
+func watchdog(d time.Duration) *time.Timer {
+	return time.AfterFunc(d, func() {
+		buf := make([]byte, 1<<20)
+		n := runtime.Stack(buf, true)
+		fmt.Fprintf(os.Stderr, "c14 harness: play does not end within %s\n%s\n", d, buf[:n])
+		os.Exit(7)
+	})
 }
 
 func raceLogSize(prefix string) (string, int64) {
@@ -74,7 +87,9 @@ func main() {
 		vh.WriteJSON(*out, "cases.json", plays)
 		_, before := raceLogSize(*raceLog)
 		t0 := time.Now()
+		wd := watchdog(120 * time.Second)
 		p.Err, p.Narration = cmd.VerifRunMoodLines(p.Cfg, false, 30*time.Second, p.Rounds, p.PerLine)
+		wd.Stop()
 		p.Seconds = time.Since(t0).Seconds()
 		time.Sleep(30 * time.Millisecond)
 		name, after := raceLogSize(*raceLog)
@@ -114,7 +129,9 @@ func main() {
 		vh.WriteJSON(*out, "cases.json", plays)
 		_, before := raceLogSize(*raceLog)
 		t0 := time.Now()
+		wd := watchdog(100 * time.Second)
 		auErr, colErr, _, _, _ := cmd.VerifMoodHandoff(p.Events)
+		wd.Stop()
 		if auErr != "" || colErr != "" {
 			p.Err = "audit: " + auErr + " / collect: " + colErr
 		}
